@@ -68,6 +68,7 @@ type tarReadData struct {
 	finish      []func() error
 	// data processed from various handlers
 	manifests           map[digest.Digest]manifest.Manifest
+	pushed              map[digest.Digest]bool // manifests that are known to be at the target
 	ociIndex            v1.Index
 	ociManifest         manifest.Manifest
 	dockerManifestFound bool
@@ -1704,19 +1705,50 @@ func (rc *RegClient) imageImportOCIHandleManifest(ctx context.Context, r ref.Ref
 	// add a finish func to push the manifest, this gets skipped for the index.json
 	if push {
 		trd.finish = append(trd.finish, func() error {
-			mRef := r.SetDigest(m.GetDescriptor().Digest.String())
-			_, err := rc.ManifestHead(ctx, mRef)
-			if err == nil {
-				return nil
-			}
-			opts := []ManifestOpts{}
-			if child {
-				opts = append(opts, WithManifestChild())
-			}
-			return rc.ManifestPut(ctx, mRef, m, opts...)
+			return rc.imageImportOCIPushManifest(ctx, r, m, trd, child)
 		})
 	}
 	trd.handleAdded = true
+	return nil
+}
+
+// imageImportOCIPushManifest pushes a manifest read from the archive unless the target already has it.
+// Nested manifests are pushed first, a manifest listed by more than one index is only queued once and
+// that may be behind one of the indexes that list it.
+func (rc *RegClient) imageImportOCIPushManifest(ctx context.Context, r ref.Ref, m manifest.Manifest, trd *tarReadData, child bool) error {
+	dig := m.GetDescriptor().Digest
+	if trd.pushed[dig] {
+		return nil
+	}
+	if mi, ok := m.(manifest.Indexer); ok && m.IsList() {
+		dl, err := mi.GetManifestList()
+		if err != nil {
+			return err
+		}
+		for _, d := range dl {
+			if mc, ok := trd.manifests[d.Digest]; ok && !trd.pushed[d.Digest] && d.Digest != dig {
+				if err := rc.imageImportOCIPushManifest(ctx, r, mc, trd, true); err != nil {
+					return err
+				}
+			}
+		}
+	}
+	if trd.pushed == nil {
+		trd.pushed = map[digest.Digest]bool{}
+	}
+	mRef := r.SetDigest(dig.String())
+	_, err := rc.ManifestHead(ctx, mRef)
+	if err != nil {
+		opts := []ManifestOpts{}
+		if child {
+			opts = append(opts, WithManifestChild())
+		}
+		err = rc.ManifestPut(ctx, mRef, m, opts...)
+		if err != nil {
+			return err
+		}
+	}
+	trd.pushed[dig] = true
 	return nil
 }
 
